@@ -60,6 +60,9 @@ LEG = {
  'zzC12Version': "servePOST also with the Mcp-Method mirror right, wrong or missing (refused with 400 before anything is handed on, from 2026-07-28 on), and with the initialize call of the legacy handshake: the session id travels on its answer and on no other.",
  'zzC09Delay': "calculateReconnectDelay for every attempt number up to 130 (thorough 1100): the jitter source is never asked for a non-positive bound (it panics), the delay is 0 for the first attempt and within (0, 2 x cap] afterwards (defect D16, fixed: conversion overflow from attempt 58 on).",
  'zzC03StatelessNotification': "A notification-only POST to a stateless endpoint through the real serveStateless: acknowledged 202, the ephemeral session closed when the request completes — and nothing orders the session's reader before that Close: known finding D15 (reported as KNOWN-FINDING, not repaired).",
+ 'zzC02ClientOptionalParams': "The client's own method implementations (every user handler installed) for every method that declares its params optional, with params absent or null: served or refused, never a panic (defect D19, fixed: the elicitation handlers dereferenced absent params).",
+ 'zzC02ServerOptionalParams': "The same for the server's own method implementations on an initialized session.",
+ 'zzConnProcessResult': "A handler's result that the encoder refuses is still answered (with an error; defect D18, fixed); a missing answer is excused only when the read or write side is broken, not when Close was merely called (defect D17, fixed).",
  'zzC14Decision': "The HTTP method (any of nine, symbolic) and ambient headers (CORS preflight markers, forwarding headers, cookies; optional map entries) are arbitrary and must not influence the decision; expirations up to ~35 000 years ahead (time.Duration saturation).",
 }
 ADD_ASSUME = {
